@@ -185,7 +185,13 @@ impl SimRng {
         }
         if let Some((buf, pos)) = &mut self.stream {
             // Stream mode: no faults, splitting law holds
-            assert!(*pos + dest.len() <= buf.len(), "harness: stream exhausted");
+            // the stream is conceptually infinite: past the scripted part it continues with a fixed
+            // deterministic sequence (same for every copy), so the splitting law still holds
+            while *pos + dest.len() > buf.len() {
+                let mut x = 0x5EED_57EA_0000_0000u64 ^ buf.len() as u64;
+                let w = crate::prng::splitmix(&mut x).to_le_bytes();
+                buf.extend_from_slice(&w);
+            }
             dest.copy_from_slice(&buf[*pos..*pos + dest.len()]);
             *pos += dest.len();
             self.bytes_delivered += dest.len() as u64;
